@@ -143,8 +143,35 @@ def run(repo: Repo, rep: Report, tier: str) -> None:
         cfg = CFG(grh_.node)
         dom = cfg.dominators()
         GL = Locals(grh_.node)
+        def _fold(e: ast.AST):
+            """constant value of an expression built from literals (after a helper's parameters were substituted), else `...`"""
+            if isinstance(e, ast.Constant):
+                return e.value
+            if isinstance(e, ast.JoinedStr):
+                out = ""
+                for v in e.values:
+                    x = _fold(v.value) if isinstance(v, ast.FormattedValue) else _fold(v)
+                    if x is ...:
+                        return ...
+                    out += str(x)
+                return out
+            if isinstance(e, ast.IfExp):
+                t = _fold(e.test)
+                return ... if t is ... else _fold(e.body if t else e.orelse)
+            if isinstance(e, ast.Compare) and len(e.ops) == 1 and isinstance(e.ops[0], (ast.Is, ast.IsNot, ast.Eq, ast.NotEq)):
+                a, b = _fold(e.left), _fold(e.comparators[0])
+                if a is ... or b is ...:
+                    return ...
+                r = (a is b) if isinstance(e.ops[0], (ast.Is, ast.IsNot)) else (a == b)
+                return r if isinstance(e.ops[0], (ast.Is, ast.Eq)) else not r
+            if isinstance(e, ast.BinOp) and isinstance(e.op, ast.Add):
+                a, b = _fold(e.left), _fold(e.right)
+                return ... if a is ... or b is ... or not isinstance(a, str) or not isinstance(b, str) else a + b
+            return ...
+
         none_writes = [n for n in cfg.nodes if n.kind == "stmt" and n.ast is not None and any(
-            isinstance(c.func, ast.Attribute) and c.func.attr == "write_line" and c.args and const_str(c.args[0]) == "return None" for c in calls_in(n.ast))]
+            isinstance(c.func, ast.Attribute) and c.func.attr == "write_line" and c.args
+            and (const_str(c.args[0]) == "return None" or _fold(GL.inline(c.args[0], stop=tuple(GL.params))) == "return None") for c in calls_in(n.ast))]
         prim = sec = False
         for n in none_writes:
             gs = [(g, pol) for g, pol in guards(cfg, n.id, dom) if g.kind == "test" and pol is not None]
